@@ -73,6 +73,9 @@ def make(init):
         idx = tuple(int(rng.integers(0, n)) for n in lead)
         e[idx] = np.nan
     times = [t0 + timedelta(hours=3 * i) for i in range(max(nt, 1))]
+    if init["seed"] % 4 == 1:
+        # time stamps as a logger writes them: irregular microseconds (the constructors keep whole seconds)
+        times = [t + timedelta(microseconds=(init["seed"] * 7919 * (i + 1)) % 999983) for i, t in enumerate(times)]
     if layout == "single":
         time, lat, lon = times[0], float(arr((), -60, 60)), float(arr((), -180, 180))
         dshape = ()
